@@ -869,6 +869,19 @@ func isscrypt(out, pw []byte) bool { return true }
 //@   noframe
 //@   ensures @C03 implies(err == nil, isscrypt(out, passphraseEntropy))
 
+// The moment the traffic keys are derived: every AEAD open of the handshake has
+// authenticated (3 acts: XX, 2 acts: KK; the initiator of a version-0 XX
+// handshake opens one record less). old() is the state DoHandshake was entered in.
+//@ func (b *Machine) DoHandshake(rw io.ReadWriter) (err error)
+//@   props C03 C04 C07 C16
+//@   pointsonly
+//@   at "b.split()" assert @C03 implies(len(b.pattern.Pattern) == 3 && !b.initiator, opens3(old(nopens()))) &&
+//@          implies(len(b.pattern.Pattern) == 3 && b.initiator && b.version == HandshakeVersion0, opens2(old(nopens()))) &&
+//@          implies(len(b.pattern.Pattern) == 3 && b.initiator && b.version != HandshakeVersion0, opens3(old(nopens()))) &&
+//@          implies(len(b.pattern.Pattern) == 2 && !b.initiator, opens1(old(nopens()))) &&
+//@          implies(len(b.pattern.Pattern) == 2 && b.initiator, opens2(old(nopens()))) &&
+//@          isnil(b.sendCipher.cipher) && isnil(b.recvCipher.cipher)
+
 // hsfresh: no traffic keys yet.
 func hsfresh(b *Machine) bool {
 	return hsready(b) && isnil(b.sendCipher.cipher) && isnil(b.recvCipher.cipher)
